@@ -162,10 +162,32 @@ type Stage func(ro.Observable[int]) ro.Observable[any]
 // IntStage is a stage usable inside chains.
 type IntStage func(ro.Observable[int]) ro.Observable[int]
 
-// anyOf erases the element type.
-func anyOf[T any](o ro.Observable[T]) ro.Observable[any] {
-	return ro.Map(func(v T) any { return v })(o)
+// anyOf erases the element type without adding a ro stage (an extra operator at
+// the outermost position would recover panics and re-wrap subscribers, hiding
+// what the stage under test does at its own boundary).
+func anyOf[T any](o ro.Observable[T]) ro.Observable[any] { return anyObs[T]{o} }
+
+type anyObs[T any] struct{ src ro.Observable[T] }
+
+func (a anyObs[T]) Subscribe(d ro.Observer[any]) ro.Subscription {
+	return a.src.Subscribe(fwd[T]{d})
 }
+
+func (a anyObs[T]) SubscribeWithContext(ctx context.Context, d ro.Observer[any]) ro.Subscription {
+	return a.src.SubscribeWithContext(ctx, fwd[T]{d})
+}
+
+type fwd[T any] struct{ d ro.Observer[any] }
+
+func (f fwd[T]) Next(v T)                                      { f.d.Next(v) }
+func (f fwd[T]) NextWithContext(ctx context.Context, v T)      { f.d.NextWithContext(ctx, v) }
+func (f fwd[T]) Error(err error)                               { f.d.Error(err) }
+func (f fwd[T]) ErrorWithContext(ctx context.Context, e error) { f.d.ErrorWithContext(ctx, e) }
+func (f fwd[T]) Complete()                                     { f.d.Complete() }
+func (f fwd[T]) CompleteWithContext(ctx context.Context)       { f.d.CompleteWithContext(ctx) }
+func (f fwd[T]) IsClosed() bool                                { return f.d.IsClosed() }
+func (f fwd[T]) HasThrown() bool                               { return f.d.HasThrown() }
+func (f fwd[T]) IsCompleted() bool                             { return f.d.IsCompleted() }
 
 func st[T any](op func(ro.Observable[int]) ro.Observable[T]) Stage {
 	return func(s ro.Observable[int]) ro.Observable[any] { return anyOf(op(s)) }
